@@ -15,6 +15,7 @@ import (
 	"time"
 
 	pb "github.com/libp2p/go-libp2p-pubsub/pb"
+	"github.com/libp2p/go-libp2p/core/crypto"
 	"github.com/libp2p/go-libp2p/core/peer"
 	"github.com/libp2p/go-libp2p/core/protocol"
 )
@@ -40,9 +41,9 @@ func TestVerifC16Blacklist(t *testing.T) {
 	}
 	vRun(t, "C16.blacklist", func(tier string) int {
 		if tier == "thorough" {
-			return len(combos) * 60
+			return len(combos) * 240
 		}
-		return len(combos) * 4
+		return len(combos) * 16
 	}, func(c *vCase) {
 		co := combos[c.Idx%len(combos)]
 		c.Bubble(func() {
@@ -87,7 +88,12 @@ func TestVerifC16Blacklist(t *testing.T) {
 				return ValidationAccept
 			}
 			opts := []Option{WithBlacklist(bl), WithMessageIdFn(func(m *pb.Message) string { return string(m.Data) })}
-			if co.pos == "in_validation_queue" {
+			// 30 % of the positions that need no validator run without signatures and without validators: such messages
+			// never enter the validation pipeline, the checks at the door are all there is
+			bare := c.Chance(0.3) && co.pos != "in_validation" && co.pos != "in_validation_queue"
+			if bare {
+				opts = append(opts, WithMessageSignaturePolicy(StrictNoSign))
+			} else if co.pos == "in_validation_queue" {
 				opts = append(opts, WithValidateWorkers(1), WithDefaultValidator(val, WithValidatorInline(true)))
 			} else {
 				opts = append(opts, WithDefaultValidator(val))
@@ -131,8 +137,16 @@ func TestVerifC16Blacklist(t *testing.T) {
 				p.Send(me, vSubRPC(true, "t"))
 			}
 			seq := uint64(10)
-			xmsg := func(data string) *pb.Message { seq++; return vSignedMsg(X.key, "t", vSeqno(seq), []byte(data)) }
-			ymsg := func(data string) *pb.Message { seq++; return vSignedMsg(Y.key, "t", vSeqno(seq), []byte(data)) }
+			mkmsg := func(k crypto.PrivKey, data string) *pb.Message {
+				seq++
+				m := vSignedMsg(k, "t", vSeqno(seq), []byte(data))
+				if bare {
+					m.Signature, m.Key = nil, nil
+				}
+				return m
+			}
+			xmsg := func(data string) *pb.Message { return mkmsg(X.key, data) }
+			ymsg := func(data string) *pb.Message { return mkmsg(Y.key, data) }
 			connectX := func() bool {
 				if err := r.Attach(X, c.Chance(0.5)); err != nil {
 					return false
@@ -141,8 +155,16 @@ func TestVerifC16Blacklist(t *testing.T) {
 				vSettle(20 * time.Millisecond)
 				return true
 			}
+			// BlacklistPeer on a peer that was already put on the list directly must still do all of its clean-up
+			preListed := co.route == "BlacklistPeer" && c.Chance(0.3)
+			// a slow wire: several RPCs for X are still queued when the ban comes
+			backlog := (co.pos == "connected" || co.pos == "in_mesh") && co.route == "BlacklistPeer" && c.Chance(0.35)
 			ban := func() time.Time {
 				if co.route == "BlacklistPeer" {
+					if preListed {
+						nd.Eval(func() { bl.Add(X.ID()) })
+						vSettle(time.Duration(c.Range(0, 20)) * time.Millisecond)
+					}
 					nd.ps.BlacklistPeer(X.ID())
 				} else {
 					nd.Eval(func() { bl.Add(X.ID()) })
@@ -202,12 +224,31 @@ func TestVerifC16Blacklist(t *testing.T) {
 				}
 			}
 			note("position=%s", co.pos)
+			if backlog {
+				r.nd.h.inj.add(&vRule{op: vOpWrite, peer: X.ID(), delay: 400 * time.Millisecond})
+				for k, K := 0, c.Range(3, 6); k < K; k++ {
+					nd.ps.Publish("t", []byte(fmt.Sprintf("backlog-%d", k)))
+				}
+				vSettle(20 * time.Millisecond)
+				note("backlog: writes to X take 400 ms, several publications queued")
+			}
 			// ---- the ban
 			xWireAtBan := X.WireLen()
 			snapBefore := nd.Snap()
 			tau := ban()
 			note("ban via %s at +%v", co.route, tau.Sub(r.born))
 			snapAt := nd.Snap()
+			// right after BlacklistPeer returned, before X does anything that could make the node close its stream
+			listedAtBan := ""
+			if co.route == "BlacklistPeer" {
+				for _, tn := range []string{"t", ""} {
+					for _, p := range nd.ps.ListPeers(tn) {
+						if p == X.ID() {
+							listedAtBan = fmt.Sprintf("X appears in ListPeers(%q) right after BlacklistPeer returned", tn)
+						}
+					}
+				}
+			}
 			// ---- after the ban: release validation, X keeps trying, Y forwards X's messages, node publishes
 			release()
 			vSettle(50 * time.Millisecond)
@@ -290,11 +331,19 @@ func TestVerifC16Blacklist(t *testing.T) {
 				}
 			}
 			if co.route == "BlacklistPeer" {
-				if n := len(X.WireSince(xWireAtBan)); n > 0 {
-					fail(map[string]string{"kind": "traffic_to_banned_peer"}, "X received %d RPCs after BlacklistPeer returned", n)
+				// (with a backlog, the one write that was already under way when the ban came cannot be recalled)
+				allowed := 0
+				if backlog {
+					allowed = 1
+				}
+				if n := len(X.WireSince(xWireAtBan)); n > allowed {
+					fail(map[string]string{"kind": "traffic_to_banned_peer", "backlog": fmt.Sprint(backlog)}, "X received %d RPCs after BlacklistPeer returned (backlog=%v)", n, backlog)
 				}
 				if _, ok := snapAt.QPeers[X.ID()]; ok {
 					fail(map[string]string{"kind": "queue_not_closed"}, "X still has an outbound queue after BlacklistPeer")
+				}
+				if listedAtBan != "" {
+					fail(map[string]string{"kind": "listed_after_ban", "when": "at_once"}, "%s", listedAtBan)
 				}
 				for _, tn := range []string{"t", ""} {
 					for _, p := range nd.ps.ListPeers(tn) {
@@ -317,7 +366,7 @@ func TestVerifC16Blacklist(t *testing.T) {
 			_ = snapBefore
 			c.Count("positions:"+co.pos, 1)
 			c.Count("messages_in_validation_at_ban", inValidation)
-			c.Sig(co, string(proto), inValidation)
+			c.Sig(co, string(proto), inValidation, bare, preListed, backlog)
 			c.Nontrivial(true)
 			c.Order(co.pos, co.route, inValidation)
 			if c.Idx < 3 {
